@@ -185,9 +185,11 @@ CHECKS['C05'] = dict(
 CHECKS['C06'] = dict(
     technique='Lean 4 proof that a template call in the implementation model (helper functions with captured sorted free names, _ParseFunction frames) has the outcome of the body with parameters denoting their arguments (closures of expression + call-site environment) and leaves the caller untouched; differential correspondence incl. call-vs-textual-expansion on the real generator',
     text=('Proof: C06_call_is_body_with_arguments (for every well-scoped program, call site, locals and environment that agree: xgen(call) = xpeg(body in the parameter environment), caller locals unchanged), '
-          'C06_arguments_bind_parameters (positional in order, keywords by name, exactly the parameters), on top of the simulation theorem of C05. '
+          'C06_arguments_bind_parameters (positional in order, keywords by name, exactly the parameters), on top of the simulation theorem of C05; '
+          'C06_call_means_its_expansion_closed_arguments (textual reading: if T(args) has an outcome, the body with every parameter replaced by the argument expression - subst, binders of the same name end the replacement - has the same outcome in any environment and with any larger fuel; '
+          'one step-indexed simulation over closures compared by behaviour, Proofs/EnvSubst.lean; closed arguments only, open arguments are covered semantically by the first theorem), C06_more_fuel_same_outcome. '
           'Tie: hand-written families (same template at one position with different arguments, nesting, keywords in any order, values of every type incl. unhashable, literals as value and parser, arguments mentioning call-site names passed on, recursion, class templates) '
-          'and typed random programs, with and without grammar header; real = xgen, real = xpeg, and real(program) = real(textual expansion of its non-class template calls). '
+          'and typed random programs, with and without grammar header; real = xgen, real = xpeg, real(program) = real(textual expansion of its non-class template calls), and the harness expansion = Lean subst for every call with closed parser arguments. '
           'PARTIAL: the memo of the trampoline is outside the names layer (C07 covers it for a correct key equality); the known finding equal-values-share-memo is exactly where the key equality is too coarse.'),
     note='Trusted as for C05; harness/envgen.expand (textual expansion, refuses call sites that would need renaming).',
     design='7 (C06), 3.6')
